@@ -105,6 +105,26 @@ def robustness(ck):
     ck.cov["input_distribution"] = dist
 
 
+def untouched_finite(ck):
+    """Finite, float64, C-contiguous inputs (which the constructor does not copy) must come back untouched from every backend/order,
+    including bins averaged over a single segment and single-bin requests with L = N."""
+    from speckit.analysis import SpectrumAnalyzer
+    g = np.random.default_rng(ck.rng.randint(0, 2 ** 31))
+    N = 256
+    for be in ("numba", "numpy", "cuda"):
+        for order in (-1, 0, 1, 2):
+            for cross in (False, True):
+                x = g.standard_normal((2, N)) + 5.0 if cross else g.standard_normal(N) + 5.0
+                keep = x.copy()
+                kw = dict(Jdes=6, Kdes=2, order=order, scheduler=ck.rng.choice(["ltf", "lpsd", "vectorized_ltf"]), win="hann", backend=be)
+                with np.errstate(all="ignore"):
+                    an = SpectrumAnalyzer(x, 1.0, **kw)
+                    an.compute(); an.compute_single_bin(0.1, L=N); an.compute_single_bin(0.2, L=N // 2)
+                if not np.array_equal(x, keep):
+                    ck.violation("the caller's finite %s float64 array was modified by an analysis (backend=%s, order=%d): mean %r -> %r" % ("2xN" if cross else "1-D", be, order, float(keep.mean()), float(x.mean())),
+                                 dict(backend=be, order=order, cross=cross, N=N, kw=kw), tag="caller-modified")
+
+
 def finiteness(ck):
     from speckit.analysis import SpectrumAnalyzer
     from ..attr_oracles import ALL_DYNAMIC
@@ -151,6 +171,7 @@ def run(ck):
     ck.build_theorems("Properties/C13.v", deps=["Ingest.vo", "gen/AttrsGen.vo", "AttrThms.vo"])
     ingest_correspondence(ck)
     robustness(ck)
+    untouched_finite(ck)
     finiteness(ck)
     ck.cov["rule"] = "layouts {2xN, Nx2, views, list, tuple, Fortran, strided, 1-D, dtypes} x NaN/+-Inf positions: caller bytes before/after, bitwise equality with the zero-filled 2xN run; finite outputs on zero/constant/degenerate/tiny/huge records"
     ck.samples = [dict(case="2xN with NaN vs zero-filled"), dict(case="Nx2 view"), dict(case="all-zero record, cross mode")]
